@@ -127,7 +127,8 @@ def format_float(x: float, places: int = 6) -> str:
     result = f'{x+0.0:.{places}f}'
     if '.' in result:
         result = result.rstrip('0').rstrip('.')
-    return result
+    # A negative value which rounds to zero keeps its sign ("-0.000000"), adding 0.0 only handles -0.0 itself.
+    return '0' if result == '-0' else result
 
 
 def _coerce_float(value: Union[float, SupportsFloat, SupportsIndex]) -> float:
